@@ -28,7 +28,7 @@ for name in sorted(os.listdir(os.path.join(V, "seeded"))):
                 fired[c["property_id"]] = {"rc": r.returncode, "fails": [l for l in r.stdout.splitlines() if l.startswith(("FAIL", "ANALYSIS"))][:6]}
         shutil.rmtree(env["VERIF_OUT"], ignore_errors=True)
     finally:
-        sh("git -C /repo checkout -- .")
+        sh("git -C /repo checkout -- . && git -C /repo clean -fdq -- src include")
     if not meta.get("detected") and fired:
         meta["missed_at_first"] = True
     meta["checks_fired"] = fired
